@@ -273,19 +273,12 @@ pub fn main(ctx: &Ctx, c09: bool) -> i32 {
                 return 2;
             }
         };
-        return match body["detail"]["universe"].as_str() {
-            Some("U-BB4") => replay_one::<crate::uni::Bb4>(ctx, &body, c09),
-            _ => replay_one::<crate::uni::Kb4>(ctx, &body, c09),
-        };
+        return crate::with_uni!(body["detail"]["universe"].as_str().unwrap_or(""), U, replay_one::<U>(ctx, &body, c09));
     }
     let runs: u64 = ctx.tier.pick(2000, 40000);
     let res = crate::core::pool::run_jobs(runs, |idx| {
         let mut out = RunOut::default();
-        if idx % 2 == 0 {
-            one_run::<crate::uni::Kb4>(ctx, idx, c09, &mut out);
-        } else {
-            one_run::<crate::uni::Bb4>(ctx, idx, c09, &mut out);
-        }
+        crate::with_uni!(crate::uni::uni_of(idx), U, one_run::<U>(ctx, idx, c09, &mut out));
         let mut d = crate::core::prng::Digest::new();
         d.u64(out.evals);
         for (k, v) in &out.counters {
